@@ -38,3 +38,9 @@ def run(ctx):
         for tr in ptraces:
             del tr[0]["scen"]["_cfg"]
         vlib.check_traces(ctx, ptraces, "e2epipe", module="TraceEchPipe", cfg="TraceEchPipe.cfg", specname="EchPipe.tla", key="cfg")
+    # the retried flight the way a proxy with one goroutine per direction sees it: the Read of the second hello is already
+    # blocked in the transport when the backend's HelloRetryRequest is written (EchConn.tla histories, parked replay)
+    echcommon.echconn_slice(ctx, lambda c: any(c["hist"][i] == ["w", "HRR"] and c["hist"][i + 1][0] == "r" for i in range(len(c["hist"]) - 1)), label="hrr flights")
+    # ... and the connection handed back by NewConn is free of its context (EchWatch.tla scenarios, a few runs each)
+    import c10
+    c10.run_watch(ctx, 2, 64, label="c01w")
